@@ -203,6 +203,50 @@ def duration_dispatch(prog, rep):
     rep.check(all(seen.values()), "DURATION", fi.short, "total dispatch", "three branches", f"dispatch branches present: {seen}", fi.loc())
 
 
+JSON_TYPES = {"string", "number", "boolean", "array", "object", "null"}
+ANNOTATIONS = {"description", "title", "default", "examples", "$comment"}
+
+
+def _restricts_json(decl, depth=0):
+    """does this (sub)schema exclude some JSON value?  -> "" (admits all) | reason | None (cannot tell)"""
+    if decl is True or decl == {}:
+        return ""
+    if decl is False:
+        return "`false` admits nothing"
+    if not isinstance(decl, dict) or depth > 4:
+        return None
+    for kw, v in decl.items():
+        if kw in ANNOTATIONS or kw == "format":
+            continue
+        if kw == "type":
+            have = set(v if isinstance(v, list) else [v])
+            if "number" in have:
+                have.add("integer")
+            if depth == 0:
+                continue  # the type of `data` itself is checked above
+            miss = sorted(JSON_TYPES - have)
+            if miss:
+                return f"`type` {sorted(have)} leaves out {miss}"
+            continue
+        if kw in ("additionalProperties", "items", "additionalItems", "unevaluatedProperties"):
+            r = _restricts_json(v, depth + 1)
+            if r != "":
+                return (f"{kw}: " + r) if r else None
+            continue
+        if kw in ("properties", "patternProperties"):
+            for name, sub in (v or {}).items():
+                r = _restricts_json(sub, depth + 1)
+                if r != "":
+                    return (f"{kw}[{name}]: " + r) if r else None
+            continue
+        if kw in ("required", "minProperties", "maxProperties", "propertyNames", "enum", "const", "not", "minItems", "maxItems", "dependencies", "dependentRequired"):
+            if v in ([], 0, {}, None):
+                continue
+            return f"`{kw}` = {json.dumps(v)[:60]}"
+        return None
+    return ""
+
+
 def json_agreement(prog, rep):
     rep.rule("JSON", "keys emitted by to_json_dict = keyword parameters of Event.__init__ = {id, timestamp, duration, data}; timestamp is emitted as .astimezone(timezone.utc).isoformat(), duration as .total_seconds(); they match schemas/event.json (required ⊆ emitted; string/date-time, number, object); __eq__ compares timestamp, duration and data")
     init = prog.func("Event.__init__")
@@ -254,6 +298,12 @@ def json_agreement(prog, rep):
             okk = have is None or need <= have
             rep.check(okk, "JSON", "schemas/event.json", f"key {k}", f"admits {sorted(need)}", f"the schema restricts `{k}` to {sorted(have or [])} but the model ({'Id = ' + id_alias if k == 'id' else 'to_json_dict'}) emits {sorted(need)}: the JSON form of such an event no longer validates against the published schema", "aw_core/schemas/event.json", expected=sorted(need), found=sorted(have or []))
             extra = sorted(set(decl) - {"type", "format", "description", "title", "default", "examples", "$comment"})
+            if k == "data" and extra:
+                # the data dict is arbitrary JSON: whatever the schema says about its members must admit every JSON value
+                why = _restricts_json(decl)
+                if why is not None:
+                    rep.check(why == "", "JSON", "schemas/event.json", "members of data", "every JSON value admitted", f"the schema constrains the members of `data`: {why}; data is free-form JSON (the setter stores any dict), so the JSON form of some event no longer validates", "aw_core/schemas/event.json")
+                    continue
             if extra:
                 rep.undecided("JSON", "schemas/event.json", f"key {k}", f"the schema constrains `{k}` with {extra}, which this analysis does not relate to the values the model emits", "aw_core/schemas/event.json")
     except Exception as e:
@@ -292,6 +342,8 @@ def check(prog, rep):
 
 
 VARIANTS = [
+    ("B schema types the members of data without null", "aw_core/schemas/event.json", '\t\t"data": {\n\t\t\t"type": "object"\n', '\t\t"data": {\n\t\t\t"type": "object",\n\t\t\t"additionalProperties": {"type": ["string", "number", "boolean", "array", "object"]}\n', "JSON"),
+    ("OK schema spells out that members of data may be any JSON value", "aw_core/schemas/event.json", '\t\t"data": {\n\t\t\t"type": "object"\n', '\t\t"data": {\n\t\t\t"type": "object",\n\t\t\t"additionalProperties": {"type": ["string", "number", "boolean", "array", "object", "null"]}\n', "ok"),
     ("B floor replaced by round", M, "ts.replace(microsecond=int(ts.microsecond / 1000) * 1000)", "ts.replace(microsecond=round(ts.microsecond / 1000) * 1000)", "NORMALISE"),
     ("B floor to 100 us", M, "ts.replace(microsecond=int(ts.microsecond / 1000) * 1000)", "ts.replace(microsecond=int(ts.microsecond / 100) * 100)", "NORMALISE"),
     ("B floor only for strings", M, "    ts = ts.replace(microsecond=int(ts.microsecond / 1000) * 1000)\n", "    if isinstance(ts_in, str):\n        ts = ts.replace(microsecond=int(ts.microsecond / 1000) * 1000)\n", "NORMALISE"),
